@@ -37,6 +37,8 @@ static a_u32 t32[256];
 static a_u64 t64[256];
 static void init_table(int w, int lsb, uint64_t poly)
 {
+    /* the generators must write every entry: start from garbage, not from a zeroed or previously generated table */
+    memset(t8, 0xA5, sizeof(t8)); memset(t16, 0xA5, sizeof(t16)); memset(t32, 0xA5, sizeof(t32)); memset(t64, 0xA5, sizeof(t64));
     switch (w)
     {
     case 8: lsb ? a_crc8l_init(t8, (a_u8)poly) : a_crc8m_init(t8, (a_u8)poly); break;
